@@ -118,25 +118,224 @@ def method_encode(ctx, pol, ci):
     return res
 
 
+def flat(term):
+    """Field-level view of an output term, independent of how the fields
+    are grouped into struct formats and of whether a constant is spelled as
+    bytes, as a constant argument, as padding or as an 'Ns' field:
+      ('const', bytes) | ('fld', size, signed, order, kind, arg)
+      | ('term', t)
+    Adjacent constants are merged."""
+    out = []
+
+    def const(b):
+        if not b:
+            return
+        if out and out[-1][0] == 'const':
+            out[-1] = ('const', out[-1][1] + b)
+        else:
+            out.append(('const', b))
+
+    for p in parts_of(term):
+        if isinstance(p, bytes):
+            const(p)
+        elif isinstance(p, Sym) and p.op == 'pack':
+            try:
+                f = T.fmt(p.args[0])
+            except Exception:
+                out.append(('term', p))
+                continue
+            multi = any(k_ not in ('bytes', 'pad') and sz_ > 1
+                        for _c, sz_, _s, k_ in f.fields)
+            if f.order in ('native', 'native-std') and multi:
+                out.append(('term', p))
+                continue
+            vi = 0
+            for ch, size, signed, kind in f.fields:
+                if kind == 'pad':
+                    const(b'\x00' * size)
+                    continue
+                arg = p.args[1][vi]
+                vi += 1
+                if kind == 'bytes':
+                    if ch == 's' and isinstance(arg, bytes) and \
+                            len(arg) == size:
+                        const(arg)
+                    else:
+                        out.append(('fld', size, None, 'any', 'bytes:' + ch,
+                                    arg))
+                    continue
+                order = f.order if size > 1 else 'any'
+                if kind == 'int' and isinstance(arg, (int, bool)) and \
+                        not isinstance(arg, Sym):
+                    lo, hi = (-(1 << (8 * size - 1)),
+                              (1 << (8 * size - 1)) - 1) if signed else \
+                        (0, (1 << (8 * size)) - 1)
+                    if lo <= int(arg) <= hi:
+                        const(int(arg).to_bytes(
+                            size, 'little' if order == 'little' else 'big',
+                            signed=bool(signed)))
+                        continue
+                out.append(('fld', size, signed, order, kind, arg))
+        else:
+            out.append(('term', p))
+    return out
+
+
+def unflat(items):
+    """Back to a list of output terms (one pack per field)."""
+    res = []
+    for it in items:
+        if it[0] == 'const':
+            res.append(it[1])
+        elif it[0] == 'term':
+            res.append(it[1])
+        else:
+            _, size, signed, order, kind, arg = it
+            res.append(Sym('pack', _fmt_of(size, signed, order, kind),
+                           (arg,)))
+    return res
+
+
+def canon(term):
+    """Canonical spelling of an output term: constants folded into bytes,
+    maximal runs of struct fields grouped into one big-endian pack."""
+    res = []
+    run = []
+
+    def flush():
+        if run:
+            fm = '>' + ''.join(_fmt_of(sz, sg, od, kd)[1:]
+                               for _, sz, sg, od, kd, _a in run)
+            res.append(Sym('pack', fm, tuple(a for *_x, a in run)))
+            del run[:]
+
+    for it in flat(term):
+        if it[0] == 'fld' and it[3] != 'little' and \
+                not it[4].startswith('bytes:'):
+            run.append(it)
+            continue
+        flush()
+        if it[0] == 'const':
+            res.append(it[1])
+        elif it[0] == 'term':
+            res.append(it[1])
+        else:
+            res.extend(unflat([it]))
+    flush()
+    return T.concat(*res) if res else b''
+
+
+_INT_CODES = {(1, False): 'B', (1, True): 'b', (2, False): 'H',
+              (2, True): 'h', (4, False): 'I', (4, True): 'i',
+              (8, False): 'Q', (8, True): 'q'}
+
+
+def _fmt_of(size, signed, order, kind):
+    pre = '<' if order == 'little' else '>'
+    if kind == 'int':
+        return pre + _INT_CODES[(size, bool(signed))]
+    if kind == 'float':
+        return pre + {4: 'f', 8: 'd'}[size]
+    if kind == 'bool':
+        return pre + '?'
+    if kind.startswith('bytes:'):
+        return '%d%s' % (size, kind[-1])
+    return pre + 'c'
+
+
+def take_fields(items, widths):
+    """Split integer fields of the given widths off the front of a flat
+    item list (a leading constant is cut as needed).
+    -> ([('const', bytes) | fld item], rest items) or None"""
+    got = []
+    rest = list(items)
+    for w in widths:
+        if not rest:
+            return None
+        head = rest[0]
+        if head[0] == 'const':
+            b = head[1]
+            if len(b) < w:
+                return None
+            got.append(('const', b[:w]))
+            rest[0] = ('const', b[w:])
+            if not rest[0][1]:
+                rest.pop(0)
+        elif head[0] == 'fld' and head[1] == w and head[4] == 'int':
+            got.append(head)
+            rest.pop(0)
+        else:
+            return None
+    return got, rest
+
+
+def fixed_fields(parts, widths):
+    """take_fields over a list of output terms.
+    -> ([int constant (big-endian unsigned reading) | (signed, order, arg)],
+        rest terms) or None"""
+    items = []
+    for p in parts:
+        items.extend(flat(p))
+    # re-merge constants across parts
+    merged = []
+    for it in items:
+        if it[0] == 'const' and merged and merged[-1][0] == 'const':
+            merged[-1] = ('const', merged[-1][1] + it[1])
+        else:
+            merged.append(it)
+    tk = take_fields(merged, widths)
+    if tk is None:
+        return None
+    got, rest = tk
+    vals = []
+    for g in got:
+        if g[0] == 'const':
+            vals.append(int.from_bytes(g[1], 'big'))
+        else:
+            vals.append((bool(g[2]), g[3], g[5]))
+    return vals, unflat(rest)
+
+
 def parse_envelope(term):
-    """concat(pack(hdr,(type, ch, size)), payload..., end) ->
-    dict(fmt, type, channel, size, payload_parts, end) or None."""
-    parts = parts_of(term)
-    if len(parts) < 2:
+    """header(type, channel, size) ++ payload... ++ end ->
+    dict(fmt, type, channel, size, payload (list of terms), end) or None.
+    Works on the field-level view, so the header may be spelled as one pack,
+    as several, or with constant fields folded into bytes."""
+    items = flat(term)
+    if not items:
         return None
-    h = parts[0]
-    if not (isinstance(h, Sym) and h.op == 'pack' and len(h.args[1]) == 3):
+    # take the first three fields, splitting a leading constant as needed
+    widths = [1, 2, 4]
+    tk = take_fields(items, widths)
+    if tk is None:
         return None
-    end = parts[-1]
-    payload = parts[1:-1]
-    if isinstance(end, bytes) and len(end) > 1 and not payload:
-        # constant payload folded together with the end octet
-        payload, end = [end[:-1]], end[-1:]
-    elif isinstance(end, bytes) and len(end) > 1:
-        payload = payload + [end[:-1]]
-        end = end[-1:]
-    return {'fmt': h.args[0], 'type': h.args[1][0], 'channel': h.args[1][1],
-            'size': h.args[1][2], 'payload': payload, 'end': end}
+    got, rest = tk
+    codes = ''
+    vals = []
+    for w, g in zip(widths, got):
+        if g[0] == 'const':
+            codes += _INT_CODES[(w, False)]
+            vals.append(int.from_bytes(g[1], 'big'))
+        else:
+            if g[3] == 'little':
+                return None
+            codes += _INT_CODES[(w, bool(g[2]))]
+            vals.append(g[5])
+    if not rest:
+        return None
+    last = rest[-1]
+    if last[0] == 'const':
+        end = last[1][-1:]
+        body = rest[:-1] + ([('const', last[1][:-1])] if last[1][:-1]
+                            else [])
+    elif last[0] == 'fld' and last[1] == 1:
+        end = Sym('pack', 'B', (last[5],))
+        body = rest[:-1]
+    else:
+        end = last[1] if last[0] == 'term' else None
+        body = rest[:-1]
+    return {'fmt': '>' + codes, 'type': vals[0], 'channel': vals[1],
+            'size': vals[2], 'payload': unflat(body), 'end': end}
 
 
 def payload_length(parts):
